@@ -1071,7 +1071,7 @@ namespace awkward {
 
   const ContentPtr
   RecordArray::num(int64_t axis, int64_t depth) const {
-    int64_t posaxis = axis_wrap_if_negative(axis);
+    int64_t posaxis = axis_wrap_if_negative(axis, depth);
     if (posaxis == depth) {
       Index64 single(1);
       single.setitem_at_nowrap(0, length_);
@@ -1104,7 +1104,7 @@ namespace awkward {
 
   const std::pair<Index64, ContentPtr>
   RecordArray::offsets_and_flattened(int64_t axis, int64_t depth) const {
-    int64_t posaxis = axis_wrap_if_negative(axis);
+    int64_t posaxis = axis_wrap_if_negative(axis, depth);
     if (posaxis == depth) {
       throw std::invalid_argument(
         std::string("axis=0 not allowed for flatten") + FILENAME(__LINE__));
@@ -1427,7 +1427,7 @@ namespace awkward {
 
   const ContentPtr
   RecordArray::rpad(int64_t target, int64_t axis, int64_t depth) const {
-    int64_t posaxis = axis_wrap_if_negative(axis);
+    int64_t posaxis = axis_wrap_if_negative(axis, depth);
     if (posaxis == depth) {
       return rpad_axis0(target, false);
     }
@@ -1457,7 +1457,7 @@ namespace awkward {
   RecordArray::rpad_and_clip(int64_t target,
                              int64_t axis,
                              int64_t depth) const {
-    int64_t posaxis = axis_wrap_if_negative(axis);
+    int64_t posaxis = axis_wrap_if_negative(axis, depth);
     if (posaxis == depth) {
       return rpad_axis0(target, true);
     }
@@ -1515,7 +1515,7 @@ namespace awkward {
 
   const ContentPtr
   RecordArray::localindex(int64_t axis, int64_t depth) const {
-    int64_t posaxis = axis_wrap_if_negative(axis);
+    int64_t posaxis = axis_wrap_if_negative(axis, depth);
     if (posaxis == depth) {
       return localindex_axis0();
     }
@@ -1543,7 +1543,7 @@ namespace awkward {
       throw std::invalid_argument(
         std::string("in combinations, 'n' must be at least 1") + FILENAME(__LINE__));
     }
-    int64_t posaxis = axis_wrap_if_negative(axis);
+    int64_t posaxis = axis_wrap_if_negative(axis, depth);
     if (posaxis == depth) {
       return combinations_axis0(n, replacement, recordlookup, parameters);
     }
